@@ -31,6 +31,16 @@
 //	the server (both token kinds, histories of names), the standalone
 //	pipeline and the real binary; the record must name the key section whose
 //	material made the signature.
+//
+// (g2) options.go: the real binary, every option `sign` / `sign-pgp` define
+//
+//	(read from the command's own help) x audit sink {working, broken}.
+//
+// (j) filenames.go: the file name a request gives - names chosen from what URL,
+//
+//	query and JSON encodings treat specially x every correct encoding of the
+//	same name, through the handler, the real `relic serve` and the real
+//	`relic remote sign`; the record must name the file byte for byte.
 package main
 
 import (
@@ -881,6 +891,7 @@ func main() {
 	phase("identity", identityPhase)
 	phase("signed-with", signedWithPhase)
 	phase("key-names", keyNamesPhase)
+	phase("file-names", fileNamesPhase)
 	phase("cli", cliPhase)
 	phase("broker", brokerPhase)
 	phase("faults", faultPhase)
@@ -889,12 +900,14 @@ func main() {
 	var keys []string
 	_ = keys
 	sort.Strings(keys)
-	run.Rule("(a) every history of <=3 requests from {sign rsaA/sha256, sign p256A/sha384, refused request} x sink configuration {file, file in missing directory, file+refusing broker, none} x every combination of <=2 (thorough 4) environment answers other than success over the audit file's system calls (open: EACCES/EISDIR/ENOSPC; each write(2)/pwrite(2), whether issued by File.Write/WriteAt - which call again for the remainder after a short count, that call being answered anew - or by the program itself on the raw descriptor through SyscallConn/Fd: ENOSPC, EIO, half of the buffer then ENOSPC, and a SHORT COUNT WITHOUT AN ERROR of 1 byte / half the buffer / all but the last byte, as the kernel reports when a size limit, a quota or the end of the device is reached mid-write; close: EIO; seek/stat/read/readat/truncate/sync/chmod, should the sink use them: EIO); a 2xx response requires exactly one complete record line for that request in the file when the first response byte is written, whatever the answers were; (b) every interleaving with <=3 preemptions for 2 threads and <=2 for 3 threads (thorough: 4 and 3) of concurrent /sign handlers over hooked mutex, token and audit-file operations; (c) the standalone pipeline x every combination of <=2 (thorough 3) open/write answers incl. the short counts; (d) every history of <=2 requests x {broker only, broker + file} x every choice of what a loopback AMQP broker does with each publisher connection (ack, nack, TCP / channel / connection torn down between publish and confirm, dropped at the handshake, exchange.declare refused, confirmed then dropped); (e) every sequence of <=2 environment events {nothing, audit file deleted, audit directory removed, file renamed away} between 2-3 sign requests on one server; (f) every history of <=3 sign requests x 6 client identities (by fingerprint; issued by either of two configured client CAs, colliding pairwise on public key, subject and issuer) on one server, each record compared with the same request alone on a fresh server; (g) the real relic binary with an audit file configured, each of 16 workers appending to one log: every signature type with a sample input (appx, pe-coff x2, appmanifest, vsix, apk, cab, dmg, msi, xar, xap, jar, ps x3, cat, rpm, deb, mach-o, pgp, cosign) x digest {flag left out, md5, sha1, sha224, sha256, sha384, sha512} x input {named file with -o, and - quick: for the flag left out and sha1, thorough: for every digest - named file in place, file redirected to stdin, pipe on stdin} x key {rsaA; p256A with default/sha384}, and for pgp: front end {sign -T pgp, sign-pgp -u KEY, sign-pgp -u CONF:KEY} x 7 output forms (detached, armored, text mode, cleartext, inline, inline armored, with ignored gpg options) x input {file argument, pipe, redirected file} x output {-o file, stdout} x 7 digests; an invocation that exits 0 and wrote its output must have appended exactly one JSON line naming the requested key and type, a digest that the produced signature itself names and the certificate it points at (independent reader of OpenPGP packets incl. RPM signature header and .deb _gpg member, CMS SignerInfo wherever a DER SignedData stands, in the signature members of zip containers and in script signature blocks, XML-DSig SignatureMethod, APK v2 block, cosign layer descriptor); plus audit sink {directory missing, path is a directory, /dev/full} x 7 ways of signing: the command must not report success; (h) one in-process server with the file sink: every sample x 7 digests (+ p256A/sha384) and pgp x 5 output forms x 7 digests through the real /sign handler, same oracle plus client name/ip/file name; (i) the NAME a request gives for its key: one configuration with key sections {signing (rsaA), SIGNING (rsaB), ec (p256A)} and alias sections {current -> signing, also -> signing (second alias to one key), CURRENT -> SIGNING (name and target differ only in case from another alias / key), Signing -> ec (named like the keys up to case), carrying -> ec with settings of its own (p384), chain -> current (alias of an alias), dangling -> undefined section, self -> self}; request names = every section name + SIGNing (matches sections only up to case) = 13; paths: in-process server with the real file token behind the server's key cache and with the scripted token - every sample type (21) x every name on one server (thorough: x 7 digests), and every history of 2 (thorough 2-3) names on a fresh server; the standalone pipeline in-process, every sample type x every name; the real binary, sign -k NAME over every sample type and sign-pgp -u NAME / -u CONF:NAME x {detached armored, cleartext} x {file, pipe}; oracle: a produced signature has exactly one record whose sig.keyname is the name of the key section whose material made the signature - read from the signature: certificate a CMS SignerInfo points at, leaf certificate embedded in XML-DSig KeyInfo / APK signing block, OpenPGP issuer key id; every key section has material of its own - and, where the signature names no certificate (cosign), of the section the name resolves to by the documented rule (one level of alias, exact spelling); sig.x509.fingerprint / sig.pgp.fingerprint is that section's certificate and the one the signature points at; sig.type, sig.hash against the signature; on the server client.name / client.ip / client.filename of the request; a refused request is tallied. states = executions, transitions = choice points. distinct_nontrivial = executions with at least one fault / preemption")
+	run.Rule("(a) every history of <=3 requests from {sign rsaA/sha256, sign p256A/sha384, refused request} x sink configuration {file, file in missing directory, file+refusing broker, none} x every combination of <=2 (thorough 4) environment answers other than success over the audit file's system calls (open: EACCES/EISDIR/ENOSPC; each write(2)/pwrite(2), whether issued by File.Write/WriteAt - which call again for the remainder after a short count, that call being answered anew - or by the program itself on the raw descriptor through SyscallConn/Fd: ENOSPC, EIO, half of the buffer then ENOSPC, and a SHORT COUNT WITHOUT AN ERROR of 1 byte / half the buffer / all but the last byte, as the kernel reports when a size limit, a quota or the end of the device is reached mid-write; close: EIO; seek/stat/read/readat/truncate/sync/chmod, should the sink use them: EIO); a 2xx response requires exactly one complete record line for that request in the file when the first response byte is written, whatever the answers were; (b) every interleaving with <=3 preemptions for 2 threads and <=2 for 3 threads (thorough: 4 and 3) of concurrent /sign handlers over hooked mutex, token and audit-file operations; (c) the standalone pipeline x every combination of <=2 (thorough 3) open/write answers incl. the short counts; (d) every history of <=2 requests x {broker only, broker + file} x every choice of what a loopback AMQP broker does with each publisher connection (ack, nack, TCP / channel / connection torn down between publish and confirm, dropped at the handshake, exchange.declare refused, confirmed then dropped); (e) every sequence of <=2 environment events {nothing, audit file deleted, audit directory removed, file renamed away} between 2-3 sign requests on one server; (f) every history of <=3 sign requests x 6 client identities (by fingerprint; issued by either of two configured client CAs, colliding pairwise on public key, subject and issuer) on one server, each record compared with the same request alone on a fresh server; (g) the real relic binary with an audit file configured, each of 16 workers appending to one log: every signature type with a sample input (appx, pe-coff x2, appmanifest, vsix, apk, cab, dmg, msi, xar, xap, jar, ps x3, cat, rpm, deb, mach-o, pgp, cosign) x digest {flag left out, md5, sha1, sha224, sha256, sha384, sha512} x input {named file with -o, and - quick: for the flag left out and sha1, thorough: for every digest - named file in place, file redirected to stdin, pipe on stdin} x key {rsaA; p256A with default/sha384}, and for pgp: front end {sign -T pgp, sign-pgp -u KEY, sign-pgp -u CONF:KEY} x 7 output forms (detached, armored, text mode, cleartext, inline, inline armored, with ignored gpg options) x input {file argument, pipe, redirected file} x output {-o file, stdout} x 7 digests; an invocation that exits 0 and wrote its output must have appended exactly one JSON line naming the requested key and type, a digest that the produced signature itself names and the certificate it points at (independent reader of OpenPGP packets incl. RPM signature header and .deb _gpg member, CMS SignerInfo wherever a DER SignedData stands, in the signature members of zip containers and in script signature blocks, XML-DSig SignatureMethod, APK v2 block, cosign layer descriptor); plus audit sink {directory missing, path is a directory, /dev/full} x 7 ways of signing: the command must not report success; (h) one in-process server with the file sink: every sample x 7 digests (+ p256A/sha384) and pgp x 5 output forms x 7 digests through the real /sign handler, same oracle plus client name/ip/file name; (i) the NAME a request gives for its key: one configuration with key sections {signing (rsaA), SIGNING (rsaB), ec (p256A)} and alias sections {current -> signing, also -> signing (second alias to one key), CURRENT -> SIGNING (name and target differ only in case from another alias / key), Signing -> ec (named like the keys up to case), carrying -> ec with settings of its own (p384), chain -> current (alias of an alias), dangling -> undefined section, self -> self}; request names = every section name + SIGNing (matches sections only up to case) = 13; paths: in-process server with the real file token behind the server's key cache and with the scripted token - every sample type (21) x every name on one server (thorough: x 7 digests), and every history of 2 (thorough 2-3) names on a fresh server; the standalone pipeline in-process, every sample type x every name; the real binary, sign -k NAME over every sample type and sign-pgp -u NAME / -u CONF:NAME x {detached armored, cleartext} x {file, pipe}; oracle: a produced signature has exactly one record whose sig.keyname is the name of the key section whose material made the signature - read from the signature: certificate a CMS SignerInfo points at, leaf certificate embedded in XML-DSig KeyInfo / APK signing block, OpenPGP issuer key id; every key section has material of its own - and, where the signature names no certificate (cosign), of the section the name resolves to by the documented rule (one level of alias, exact spelling); sig.x509.fingerprint / sig.pgp.fingerprint is that section's certificate and the one the signature points at; sig.type, sig.hash against the signature; on the server client.name / client.ip / client.filename of the request; a refused request is tallied.; (g2) the real binary, every option a sign-capable command defines x what the sink does: the option set is read from the command itself (`relic sign --help`, `relic sign-pgp --help`: the flag set of the binary under test, less the options every case sets - input, output, key, type - and --help): command {sign: a script into -o, a pgp message from a pipe to stdout; sign-pgp -u KEY and -u CONF:KEY: detached armored / cleartext / inline x {file argument and -o, pipe and stdout}} x {no further option, each defined option given once - a boolean as --opt, --opt=false and its short letter; a valued option with its stated default and with a value of its kind: descriptor 1 and 2 for *-fd, sha256 / sha512 for a digest, an existing file where the usage asks for one, plain text otherwise} x audit file sink {working, directory missing, path is a directory, /dev/full}: with the working sink exit 0 with output => exactly one record agreeing with the signature (as (g)), with a sink that cannot take the record the command must not both write the signature and exit 0; a refused invocation (option not applicable to the type) is tallied; (j) the FILE NAME a request gives: 38 names chosen from what the layers between client and record treat specially (space, leading / trailing space, +, bare %, % before hex digits, names that are themselves percent-encoded text incl. %25 %2B %20 %2F %00 and doubly encoded, & = ; # ?, a name that spells another parameter, / .. backslash, double and single quote, < >, tab, newline, UTF-8 of 2 / 3 / 4 bytes, a decomposed character) x 4 correct encodings of the same name (form encoding as url.Values.Encode writes it, RFC 3986 percent-encoding with %20, every byte as lower-case %xx, the minimal escaping a query component requires) x sigtype {ps with the parameter last, pgp with the parameter first} through the /sign handler in-process and through the real `relic serve` over TLS with a hand-written net/http client; plus the real `relic remote sign` ( -o and in place) against that server for each of the names a file on disk can have (36); oracle: a 2xx answer / exit 0 with a signed output => the audit file gained exactly one JSON line whose client.filename, decoded by encoding/json, equals the name sent byte for byte, and sig.keyname / sig.type are the requested ones; the server is still running at the end. states = executions, transitions = choice points. distinct_nontrivial = executions with at least one fault / preemption")
 	run.Assume("the audit file is an in-memory file (verif/shim/vos) emulating *os.File system call by system call: kernel O_APPEND semantics (atomic positioned append), per-descriptor offsets otherwise, Seek/ReadAt/WriteAt/Stat/Truncate; a program that leaves the os.File API (SyscallConn, Fd) gets the descriptor of a real unlinked file mirroring the virtual one, and a byte budget on its raw write(2) is imposed by the real kernel through RLIMIT_FSIZE = write position + budget for the duration of the callback (SIGXFSZ ignored): the call returns the short count, and EFBIG - whatever errno the harness named - once nothing fits; the size of a raw write is not known beforehand, so 'half' is 64 bytes there (every record is longer; an execution in which the budget was not reached marks the run not exhaustive)")
 	run.Assume("all system calls made inside one SyscallConn callback are one atomic step for the scheduler")
 	run.Assume("a short write (with or without an error) ends the history after the request it hit (the file may then no longer be line-structured through no fault of relic); that request itself is judged: no 2xx unless its complete record is in the file")
 	run.Assume("(g),(h): a request that relic refuses (non-zero exit / non-2xx) is tallied and not judged; a produced output in which the independent reader finds no signature is tallied as not inspected (none on the unchanged tree); the recorded digest is required to be ONE of the digests the signature names")
 	run.Assume("(i): 'the key actually used' is the key-describing section (token, key file, certificates) whose material signed, not the name the request reached it by (doc/relic.yml: an alias section makes its name an alias for the other key and cannot override any of its parameters); a request through a name that the documented rule resolves to no key (alias of an alias, dangling, self, unknown spelling) is expected to be refused - if it is signed it is judged by what the signature says and tallied")
+	run.Assume("(j): file names are valid UTF-8 without NUL (a JSON string cannot carry other bytes unchanged); a request that is refused is tallied (none on the unchanged tree); waiting for `relic serve` to accept TLS is capped at 120 s, reaching the cap marks the run not exhaustive")
+	run.Assume("(g2): the options are those the help text of the binary under test lists; an option given together with a second non-default option is not enumerated (each option singly on top of each base form)")
 	run.Assume("AMQP: the broker is verif/amqpfake (protocol frames written from the 0-9-1 specification, checked against relic's own publisher in amqpfake_test.go); a broker that accepts the publish and then stays silent forever is not in the alphabet (the publisher has no timeout: that history never ends)")
 	run.Finish()
 }
